@@ -43,7 +43,30 @@ def bind_repo():
     import bacpypes  # noqa
     if not bacpypes.__file__.startswith(SRC + os.sep):
         raise Infra("bacpypes resolves to %s, not %s" % (bacpypes.__file__, SRC))
+    if os.environ.get("VERIF_DEBUGFLAGS") == "1":
+        debug_flags_on()
     return bacpypes
+
+
+def debug_flags_on():
+    """the library's module-level debugging switched ON (every `if _debug:` block runs and evaluates its
+    arguments) while the loggers stay at their default level, so nothing is formatted or printed: what a
+    module does must not depend on whether it is being traced"""
+    import importlib, pkgutil
+    import bacpypes
+    names = ["bacpypes"]
+    for m in pkgutil.walk_packages(bacpypes.__path__, "bacpypes."):
+        names.append(m.name)
+    n = 0
+    for name in names:
+        try:
+            mod = importlib.import_module(name)
+        except Exception:
+            continue
+        if hasattr(mod, "_debug"):
+            mod._debug = 1
+            n += 1
+    return n
 
 
 class Infra(Exception):
@@ -446,6 +469,47 @@ def _arm_watchdog(limit):
     signal.alarm(limit)
 
 
+def debug_flags_pass(ctx, prop_id):
+    """the quick-tier streams of this check once more in a child process with the library's module-level
+    debugging switched on (see debug_flags_on): the properties are claimed for the library, not for the
+    library-while-nobody-is-tracing-it.  Failures and disagreements found there are reported like any other,
+    marked with the setting; the child gets its own generous time limit"""
+    import pickle
+    fd, path = tempfile.mkstemp(prefix="verif-subpass-", suffix=".pkl")
+    os.close(fd)
+    env = dict(os.environ, VERIF_DEBUGFLAGS="1", VERIF_SUBPASS=path, VERIF_TIER="quick")
+    t0 = time.time()
+    try:
+        p = subprocess.run([sys.executable, "-m", "harness.main", prop_id, "--tier", "quick"], cwd=VERIF, env=env,
+                           capture_output=True, text=True, timeout=800)
+        if p.returncode != 0 or not os.path.getsize(path):
+            raise Infra("debug-flags pass ended with rc %d: %s" % (p.returncode, (p.stdout + p.stderr)[-400:]))
+        d = pickle.load(open(path, "rb"))
+    except subprocess.TimeoutExpired:
+        raise Infra("debug-flags pass timed out")
+    finally:
+        try:
+            os.remove(path)
+        except OSError:
+            pass
+    setting = "module debugging switched on (every bacpypes module's _debug flag set, loggers at their default level)"
+    for rec in d["failures"]:
+        rec["setting"] = setting
+        rec["debugflags"] = 1
+        rec["what"] = "[with %s] %s" % ("module debugging on", rec.get("what"))
+        ctx.failures.append(rec)
+    for dis in d["disagreements"]:
+        dis["stream"] = "debugflags:" + str(dis.get("stream"))
+        ctx.disagreements.append(dis)
+    for b in d.get("broken", []):
+        ctx.broken.append("[module debugging on] " + b)
+    ctx.evaluations += d["evaluations"]
+    ctx.streams["debugflags-pass"] += d["evaluations"]
+    ctx.extra["debug_flags_pass"] = {"evaluations": d["evaluations"], "failures": len(d["failures"]),
+                                     "disagreements": d.get("n_dis", len(d["disagreements"])),
+                                     "seconds": round(time.time() - t0, 1), "setting": setting}
+
+
 def run_check(prop_id, mod, tier, seed, replay=None):
     """mod provides:
          LEAN_TARGETS : list of lake targets (Props/Audit modules, driver exe)
@@ -462,6 +526,29 @@ def run_check(prop_id, mod, tier, seed, replay=None):
         os.remove(ev_path)
     except OSError:
         pass
+    subpass = os.environ.get("VERIF_SUBPASS")
+    if subpass:
+        # one more pass over this check's streams under a non-default global setting chosen by the parent
+        # run (bind_repo applies it); the model is built already; the result goes back to the parent
+        import pickle
+        try:
+            bind_repo()
+            ctx.model_ok = True
+            try:
+                mod.run(ctx)
+            except (Infra, MemoryError, OSError, KeyboardInterrupt):
+                raise
+            except Exception:
+                import traceback
+                ctx.broken.append("harness crashed on this tree: " + " | ".join(
+                    traceback.format_exc().strip().split("\n")[-6:]))
+        except Infra as e:
+            print("INFRA: %s" % e)
+            sys.exit(2)
+        d = ctx.export()
+        d["broken"] = ctx.broken
+        pickle.dump(d, open(subpass, "wb"))
+        return 0
     try:
         bind_repo()
         # 1. regenerate tables
@@ -501,9 +588,14 @@ def run_check(prop_id, mod, tier, seed, replay=None):
         ctx.model_ok = model_ok
         try:
             if replay:
-                mod.replay(ctx, json.load(open(replay)))
+                payload = json.load(open(replay))
+                if (payload.get("failure") or {}).get("debugflags"):
+                    debug_flags_on()
+                mod.replay(ctx, payload)
             else:
                 mod.run(ctx)
+                if os.environ.get("VERIF_DEBUGFLAGS") != "1" and os.environ.get("VERIF_NO_DEBUGPASS") != "1":
+                    debug_flags_pass(ctx, prop_id)
         except (Infra, MemoryError, OSError, KeyboardInterrupt):
             raise
         except Exception:
